@@ -318,4 +318,115 @@ theorem not_instPanics_of_ne_panic {args : List ETy} {cands : List GCand} (h : r
     ∀ g ∈ cands, ¬ InstPanics args g :=
   fun g hg hp => h (resolveG_panics hg hp)
 
+/-! ## the generator's templates: exact matches through `T`, and when instantiation cannot panic -/
+
+
+theorem normScalar_id {s : Scalar} (h : s ≠ .intLiteral ∧ s ≠ .floatLiteral) : normScalar s = s := by
+  cases s <;> simp_all [normScalar]
+
+theorem normalizeTy_nonLiteral (t : Ty) (h : NonLiteral t.layer) : normalizeTy t = ⟨{}, t.layer⟩ := by
+  unfold normalizeTy
+  cases hl : t.layer with
+  | scalar s => rw [hl] at h; simp [normScalar_id h]
+  | vector s n => rw [hl] at h; simp [normScalar_id h]
+  | matrix s x y => rw [hl] at h; simp [normScalar_id h]
+  | enum i => rfl
+  | other i => rfl
+
+theorem find_same_layer_rvalue (a : ETy) :
+    ∃ c, find a ⟨⟨{}, a.ty.layer⟩, .rvalue⟩ = .ok (some c) ∧ c.dimCast = none ∧ c.primary = none := by
+  unfold find
+  simp only [dimensionCast, primaryCast, modifierCast, if_true]
+  simp
+  by_cases hm : a.ty.mod = {} <;> simp [hm, sharedModifierCast]
+
+theorem tvar_in_param_matches_exactly (id : Nat) (a : ETy) (h : NonLiteral a.ty.layer) :
+    rankG [a] ((TCand.mk id [.type] [⟨.tvar 0, .in⟩] 1).toG []) = .ranked id [⟨.exact, .exact⟩] := by
+  obtain ⟨c, hc, hd, hp⟩ := find_same_layer_rvalue a
+  have hr : getRank c = .ok ⟨.exact, .exact⟩ := by
+    unfold getRank; rw [hd, hp]; rfl
+  simp [rankG, TCand.toG, TCand.inst, TCand.targs, gatherArgs, firstInfer, tryInfer, TArg.normalize, kindsAgree,
+    substParams, substPTy, normalizeTy_nonLiteral a.ty h, zipRanks, Param.ety, InputModifier.needsLvalue, hc, hr]
+
+
+theorem kindsAgree_get : ∀ (ks : List TKind) (ts : List TArg), kindsAgree ks ts = true →
+    ∀ k : Nat, ks[k]? = some TKind.type → ∃ t, ts[k]? = some (TArg.type t)
+  | [], [], _, k, hk => by simp at hk
+  | [], _ :: _, h, _, _ => by simp [kindsAgree] at h
+  | .type :: ks, [], h, _, _ => by simp [kindsAgree] at h
+  | .value :: ks, [], h, _, _ => by simp [kindsAgree] at h
+  | .type :: ks, .type t :: ts, h, k, hk => by
+    simp only [kindsAgree] at h
+    cases k with
+    | zero => exact ⟨t, rfl⟩
+    | succ k => simpa using kindsAgree_get ks ts h k (by simpa using hk)
+  | .type :: ks, .const :: ts, h, _, _ => by simp [kindsAgree] at h
+  | .value :: ks, .type _ :: ts, h, _, _ => by simp [kindsAgree] at h
+  | .value :: ks, .const :: ts, h, k, hk => by
+    simp only [kindsAgree] at h
+    cases k with
+    | zero => simp at hk
+    | succ k => simpa using kindsAgree_get ks ts h k (by simpa using hk)
+
+theorem substParams_simple (kinds : List TKind) (ts : List TArg)
+    (hk : ∀ k : Nat, kinds[k]? = some TKind.type → ∃ t, ts[k]? = some (TArg.type t)) :
+    ∀ (ps : List TParam), (∀ p ∈ ps, match p.pat with | .conc _ => True | .tvar k => kinds[k]? = some TKind.type | _ => False) →
+      ∃ out, substParams ts ps = .ok out
+  | [], _ => ⟨[], rfl⟩
+  | p :: ps, h => by
+    obtain ⟨rest, hrest⟩ := substParams_simple kinds ts hk ps (fun q hq => h q (List.mem_cons_of_mem _ hq))
+    have hp := h p List.mem_cons_self
+    simp only [substParams]
+    cases hpat : p.pat with
+    | conc t => simp [substPTy, hrest]
+    | tvar k =>
+      rw [hpat] at hp
+      obtain ⟨t, ht⟩ := hk k (by simpa using hp)
+      simp [substPTy, ht, hrest]
+    | tvec k n => rw [hpat] at hp; exact absurd hp (by simp)
+    | tmat k x y => rw [hpat] at hp; exact absurd hp (by simp)
+    | tarr k n => rw [hpat] at hp; exact absurd hp (by simp)
+
+theorem inst_simple (c : TCand) (h : SimpleTemplate c) (explicit : List TArg) (args : List ETy) :
+    ∃ r, c.inst explicit args = .ok r := by
+  unfold TCand.inst
+  by_cases he : c.tkinds.isEmpty = true
+  · rw [if_pos he]
+    by_cases hx : explicit.isEmpty = true
+    · rw [if_pos hx]
+      obtain ⟨out, hout⟩ := substParams_simple c.tkinds [] (fun k hk => by
+        simp [List.isEmpty_iff.mp he] at hk) c.params h
+      rw [hout]; exact ⟨_, rfl⟩
+    · rw [if_neg hx]; exact ⟨_, rfl⟩
+  · rw [if_neg he]
+    cases ht : c.targs explicit args with
+    | none => exact ⟨_, rfl⟩
+    | some ts =>
+      have hka : kindsAgree c.tkinds ts = true := by
+        unfold TCand.targs at ht
+        split at ht
+        · simp at ht
+        · split at ht
+          · simp at ht
+          · split at ht
+            · rename_i hk; simp only [Option.some.injEq] at ht; rw [← ht]; exact hk
+            · simp at ht
+      obtain ⟨out, hout⟩ := substParams_simple c.tkinds ts (kindsAgree_get _ _ hka) c.params h
+      simp only [hout]; exact ⟨_, rfl⟩
+
+theorem simple_template_never_panics (c : TCand) (h : SimpleTemplate c) (explicit : List TArg) (args : List ETy) :
+    (rankG args (c.toG explicit)).isPanic = false := by
+  unfold rankG
+  split
+  · simp only [TCand.toG]
+    obtain ⟨r, hr⟩ := inst_simple c h explicit args
+    rw [hr]
+    cases r with
+    | none => rfl
+    | some ps =>
+      simp only []
+      obtain ⟨r', hr'⟩ := zipRanks_total ps args
+      rw [hr']; cases r' <;> rfl
+  · rfl
+
 end RsslVerif.Lemmas.OverloadT
